@@ -622,4 +622,345 @@ theorem depthFirstOrbit_inOrbit (iso : BMat → BMat → Bool) (fuel : Nat) (g :
       exact applyScripts_inOrbit g.r g.f g _ out hA (inOrbit_self g.r g rfl hsq) e2
 
 
+/-! ### `automorph_check` and `iso_finder` -/
+
+/-- `m` is the input relabelled by a label list taken from `labels` -/
+def RelabelOf (g : BMat) (labels : List (List Nat)) (m : List Int) : Prop := ∃ p ∈ labels, relabel? g p = .ok m
+
+theorem automorphGo_spec (g : BMat) (a0 : List Int) (all labels : List (List Nat)) (acc out : List (List Int))
+    (hsub : ∀ p ∈ labels, p ∈ all) (hn : acc.Nodup) (h0 : a0 ∉ acc) (hr : ∀ m ∈ acc, RelabelOf g all m)
+    (e : automorphGo g a0 labels acc = .ok out) : out.Nodup ∧ a0 ∉ out ∧ ∀ m ∈ out, RelabelOf g all m := by
+  induction labels generalizing acc with
+  | nil =>
+    simp [automorphGo] at e
+    cases e
+    exact ⟨(List.reverse_perm acc).nodup_iff.mpr hn, by simpa using h0, fun m hm => hr m (by simpa using hm)⟩
+  | cons p rest ih =>
+    simp only [automorphGo] at e
+    split at e
+    · cases e
+    · rename_i m em
+      have hrest : ∀ q ∈ rest, q ∈ all := fun q hq => hsub q (List.mem_cons_of_mem _ hq)
+      split at e
+      · exact ih acc hrest hn h0 hr e
+      · rename_i hc
+        have hc1 : ¬ m = a0 := fun x => hc (Or.inl x)
+        have hc2 : m ∉ acc := fun x => hc (Or.inr (by simpa using x))
+        apply ih (m :: acc) hrest (List.nodup_cons.mpr ⟨hc2, hn⟩) _ _ e
+        · intro x; rcases List.mem_cons.mp x with x | x
+          · exact hc1 x.symm
+          · exact h0 x
+        · intro x hx; rcases List.mem_cons.mp hx with hx | hx
+          · rw [hx]; exact ⟨p, hsub p (by simp), em⟩
+          · exact hr x hx
+
+/-- `automorph_check`: the input first, then pairwise distinct matrices different from it, each a relabelling of the input -/
+theorem automorphCheck_spec (g : BMat) (labels : List (List Nat)) (out : List (List Int))
+    (e : automorphCheck g labels = .ok out) :
+    ∃ tail, out = flatInt g :: tail ∧ out.Nodup ∧ ∀ m ∈ tail, RelabelOf g labels m := by
+  unfold automorphCheck at e
+  split at e
+  · cases e
+  · rename_i tail et
+    cases e
+    obtain ⟨h1, h2, h3⟩ := automorphGo_spec g (flatInt g) labels labels [] tail (fun _ h => h) (by simp) (by simp) (by simp) et
+    exact ⟨tail, rfl, List.nodup_cons.mpr ⟨h2, h1⟩, h3⟩
+
+/-- the labels produced so far: the identity first, everything else the identity or one of the recorded draws -/
+def LabelsOK (n : Nat) (draws : List (List (List Nat))) (labels : List (List Nat)) : Prop :=
+  labels.head? = some (List.range n) ∧ ∀ p ∈ labels, p = List.range n ∨ ∃ ds ∈ draws, p ∈ ds
+
+theorem labelSetLoop_spec (nLabel thr fuel : Nat) (set : List (List Nat)) (count : Nat) (ds : List (List Nat)) :
+    (labelSetLoop nLabel thr fuel set count ds).1.head? = set.head? ∨ set = [] := by
+  induction fuel generalizing set count ds with
+  | zero => left; rfl
+  | succ f ih =>
+    simp only [labelSetLoop]
+    split
+    · cases ds with
+      | nil => left; rfl
+      | cons d rest =>
+        simp only []
+        cases set with
+        | nil => right; rfl
+        | cons s0 st =>
+          left
+          rcases ih (if (s0 :: st).contains d then s0 :: st else s0 :: st ++ [d]) (count + 1) rest with h | h
+          · rw [h]; split <;> rfl
+          · split at h <;> simp at h
+    · left; rfl
+
+theorem labelSetLoop_mem (nLabel thr fuel : Nat) (set : List (List Nat)) (count : Nat) (ds : List (List Nat)) :
+    ∀ p ∈ (labelSetLoop nLabel thr fuel set count ds).1, p ∈ set ∨ p ∈ ds := by
+  induction fuel generalizing set count ds with
+  | zero => intro p hp; left; exact hp
+  | succ f ih =>
+    simp only [labelSetLoop]
+    split
+    · cases ds with
+      | nil => intro p hp; left; exact hp
+      | cons d rest =>
+        simp only []
+        intro p hp
+        rcases ih _ _ _ p hp with h | h
+        · split at h
+          · left; exact h
+          · rcases List.mem_append.mp h with h | h
+            · left; exact h
+            · right; simp at h; rw [h]; simp
+        · right; exact List.mem_cons_of_mem _ h
+    · intro p hp; left; exact hp
+
+theorem labelFinder_spec (nLabel nNode : Nat) (labelSet : Option (List (List Nat))) (exh : Bool) (thresh : Option Nat)
+    (ds : List (List Nat)) (labels : List (List Nat)) (used : Nat)
+    (hset : ∀ s, labelSet = some s → s.head? = some (List.range nNode))
+    (e : labelFinder nLabel nNode labelSet exh thresh ds = .ok (labels, used)) :
+    labels.head? = some (List.range nNode) ∧
+    ∀ p ∈ labels, p = List.range nNode ∨ p ∈ ds ∨ ∃ s, labelSet = some s ∧ p ∈ s := by
+  unfold labelFinder at e
+  simp only [] at e
+  split at e
+  · cases e
+  · split at e
+    · split at e
+      · cases e
+      · split at e
+        · cases e
+        · cases e
+          refine ⟨rfl, fun p hp => ?_⟩
+          rcases List.mem_cons.mp hp with h | h
+          · left; exact h
+          · right; left; exact List.mem_of_mem_take h
+    · injection e with e'
+      have hl : labels = (labelSetLoop nLabel (threshOf thresh nLabel) (threshOf thresh nLabel + 1) (set0Of labelSet nNode) 0 ds).1 := by
+        rw [e']
+      rw [hl]
+      cases labelSet with
+      | none =>
+        refine ⟨?_, fun p hp => ?_⟩
+        · rcases labelSetLoop_spec _ _ _ (set0Of none nNode) 0 ds with h | h
+          · rw [h]; rfl
+          · simp [set0Of] at h
+        · rcases labelSetLoop_mem _ _ _ _ _ _ p hp with h | h
+          · left; simpa [set0Of] using h
+          · right; left; exact h
+      | some s =>
+        have hs := hset s rfl
+        refine ⟨?_, fun p hp => ?_⟩
+        · rcases labelSetLoop_spec _ _ _ (set0Of (some s) nNode) 0 ds with h | h
+          · rw [h]; exact hs
+          · simp only [set0Of] at h; rw [h] at hs; simp at hs
+        · rcases labelSetLoop_mem _ _ _ _ _ _ p hp with h | h
+          · right; right; exact ⟨s, rfl, h⟩
+          · right; left; exact h
+
+
+theorem dedupe_spec (l acc : List (List Nat)) :
+    (∀ p ∈ l.foldl (fun acc p => if acc.contains p then acc else acc ++ [p]) acc, p ∈ acc ∨ p ∈ l) ∧
+    (acc ≠ [] → (l.foldl (fun acc p => if acc.contains p then acc else acc ++ [p]) acc).head? = acc.head?) := by
+  induction l generalizing acc with
+  | nil => exact ⟨fun p hp => Or.inl hp, fun _ => rfl⟩
+  | cons a t ih =>
+    simp only [List.foldl_cons]
+    by_cases hc : acc.contains a = true
+    · simp only [hc, if_true]
+      obtain ⟨h1, h2⟩ := ih acc
+      exact ⟨fun p hp => (h1 p hp).elim Or.inl (fun h => Or.inr (List.mem_cons_of_mem _ h)), h2⟩
+    · have hc' : acc.contains a = false := by simpa using hc
+      simp only [hc', Bool.false_eq_true, if_false]
+      obtain ⟨h1, h2⟩ := ih (acc ++ [a])
+      refine ⟨fun p hp => ?_, fun hne => ?_⟩
+      · rcases h1 p hp with h | h
+        · rcases List.mem_append.mp h with h | h
+          · left; exact h
+          · right; simp at h; rw [h]; simp
+        · right; exact List.mem_cons_of_mem _ h
+      · rw [h2 (by simp)]
+        cases acc with
+        | nil => exact absurd rfl hne
+        | cons x xs => rfl
+
+theorem dedupe_head (a : List Nat) (t : List (List Nat)) :
+    ((a :: t).foldl (fun acc p => if acc.contains p then acc else acc ++ [p]) []).head? = some a := by
+  simp only [List.foldl_cons]
+  have : (if ([] : List (List Nat)).contains a = true then [] else [] ++ [a]) = [a] := by simp
+  rw [this, (dedupe_spec t [a]).2 (by simp)]
+  rfl
+
+theorem addLabels_spec (n : Nat) (all : List (List (List Nat))) (labels : List (List Nat)) (addN : Nat) (exh : Bool)
+    (thresh : Option Nat) (ds : List (List Nat)) (labels' : List (List Nat)) (used : Nat)
+    (hds : ds = [] ∨ ds ∈ all) (hl : LabelsOK n all labels)
+    (e : addLabels labels addN exh thresh ds = .ok (labels', used)) : LabelsOK n all labels' := by
+  unfold addLabels at e
+  cases labels with
+  | nil => simp at e
+  | cons l0 rest =>
+    simp only [] at e
+    have hl0 : l0 = List.range n := by
+      have := hl.1; simpa using this
+    have hlen : l0.length = n := by rw [hl0]; simp
+    rw [hlen] at e
+    obtain ⟨h1, h2⟩ := labelFinder_spec _ n _ exh thresh ds labels' used
+      (fun s hs => by
+        injection hs with hs
+        rw [← hs, dedupe_head l0 rest, hl0]) e
+    refine ⟨h1, fun p hp => ?_⟩
+    rcases h2 p hp with h | h | ⟨s, hs, hps⟩
+    · left; exact h
+    · right
+      rcases hds with hd | hd
+      · rw [hd] at h; simp at h
+      · exact ⟨ds, hd, h⟩
+    · injection hs with hs
+      rw [← hs] at hps
+      rcases (dedupe_spec (l0 :: rest) []).1 p hps with h | h
+      · simp at h
+      · exact hl.2 p h
+
+/-- the list of matrices held by `iso_finder`: the input first, pairwise distinct, every other entry the input relabelled
+    by the identity or by one of the recorded generator draws -/
+def AdjOK (g : BMat) (all : List (List (List Nat))) (adj : List (List Int)) : Prop :=
+  ∃ tail, adj = flatInt g :: tail ∧ adj.Nodup ∧
+    ∀ m ∈ tail, ∃ p, (p = List.range g.r ∨ ∃ ds ∈ all, p ∈ ds) ∧ relabel? g p = .ok m
+
+theorem adjOK_of_automorph (g : BMat) (all : List (List (List Nat))) (labels : List (List Nat)) (adj : List (List Int))
+    (hl : LabelsOK g.r all labels) (e : automorphCheck g labels = .ok adj) : AdjOK g all adj := by
+  obtain ⟨tail, h1, h2, h3⟩ := automorphCheck_spec g labels adj e
+  refine ⟨tail, h1, h2, fun m hm => ?_⟩
+  obtain ⟨p, hp, ep⟩ := h3 m hm
+  exact ⟨p, hl.2 p hp, ep⟩
+
+theorem headD_mem_or_nil (rem : List (List (List Nat))) (all : List (List (List Nat))) (h : ∀ ds ∈ rem, ds ∈ all) :
+    rem.headD [] = [] ∨ rem.headD [] ∈ all := by
+  cases rem with
+  | nil => left; rfl
+  | cons a t => right; exact h a (by simp)
+
+theorem isoLoop_spec (cfg : IsoCfg) (g : BMat) (nMax : Nat) (all : List (List (List Nat))) (fuel : Nat)
+    (rem : List (List (List Nat))) (labels : List (List Nat)) (adj : List (List Int)) (nLabel : Nat) (relInc : Float)
+    (allChecked : Bool) (rounds : Nat) (consumed : List Nat) (r : IsoRes)
+    (hrem : ∀ ds ∈ rem, ds ∈ all) (hl : LabelsOK g.r all labels) (ha : AdjOK g all adj)
+    (e : isoLoop cfg g nMax fuel rem labels adj nLabel relInc allChecked rounds consumed = .ok r) :
+    AdjOK g all r.full ∧ r.nOut ≤ cfg.nIso ∧ r.nOut ≤ r.full.length := by
+  induction fuel generalizing rem labels adj nLabel relInc allChecked rounds consumed with
+  | zero => simp [isoLoop] at e
+  | succ f ih =>
+    simp only [isoLoop] at e
+    split at e
+    · rename_i hcond
+      split at e
+      · cases e
+        exact ⟨ha, Nat.le_of_lt hcond.1, Nat.le_refl _⟩
+      · split at e
+        · cases e
+        · rename_i labels1 used e1
+          have hl1 := addLabels_spec g.r all labels _ _ cfg.thresh (rem.headD []) labels1 used
+            (headD_mem_or_nil rem all hrem) hl e1
+          split at e
+          · cases e
+          · rename_i adj1 e2
+            exact ih rem.tail labels1 adj1 _ _ _ _ _ (fun ds hd => hrem ds (List.mem_of_mem_tail hd)) hl1
+              (adjOK_of_automorph g all labels1 adj1 hl1 e2) e
+    · cases e
+      exact ⟨ha, Nat.min_le_left _ _, Nat.min_le_right _ _⟩
+
+/-- **`iso_finder`, every return path**: the list from which the result is cut has the input first, is pairwise distinct,
+    every other entry is the input relabelled by the identity or a recorded draw; and at most `n_iso` entries are returned -/
+theorem isoFinder_spec (cfg : IsoCfg) (g : BMat) (draws : List (List (List Nat))) (r : IsoRes)
+    (e : isoFinder cfg g draws = .ok r) :
+    AdjOK g draws r.full ∧ r.nOut ≤ cfg.nIso ∧ r.nOut ≤ r.full.length := by
+  unfold isoFinder at e
+  simp only [] at e
+  split at e
+  · cases e
+  · rename_i labels used e1
+    obtain ⟨h1, h2⟩ := labelFinder_spec _ g.r none false cfg.thresh (draws.headD []) labels used (fun s hs => by cases hs) e1
+    have hl : LabelsOK g.r draws labels := by
+      refine ⟨h1, fun p hp => ?_⟩
+      rcases h2 p hp with h | h | ⟨s, hs, _⟩
+      · left; exact h
+      · right
+        rcases headD_mem_or_nil draws draws (fun _ h => h) with hd | hd
+        · rw [hd] at h; simp at h
+        · exact ⟨_, hd, h⟩
+      · cases hs
+    split at e
+    · cases e
+    · rename_i adj e2
+      have ha := adjOK_of_automorph g draws labels adj hl e2
+      split at e
+      · rename_i hge
+        cases e
+        exact ⟨ha, Nat.le_refl _, hge⟩
+      · exact isoLoop_spec cfg g _ draws _ draws.tail labels adj _ _ _ _ _ r
+          (fun ds hd => List.mem_of_mem_tail hd) hl ha e
+
+
+/-- the relabelled matrix as a graph -/
+def relabelAdj (n : Nat) (A : Adj) (p : List Nat) : Adj := fun a b => decide (relabel n A p a b ≠ 0)
+
+theorem getD_of_getElem? (p : List Nat) (u a d : Nat) (h : p[u]? = some a) : p.getD u d = a := by
+  simp [List.getD, h]
+
+/-- a permutation `p` is an isomorphism from `A` to `relabel A p` (as judged by the specification recorded for
+    networkx's matcher) -/
+theorem relabel_iso (n : Nat) (A : Adj) (p : List Nat) (hp : p.Perm (List.range n)) :
+    isIsoMap n A (relabelAdj n A p) p = true := by
+  have hinj := injLabels_of_perm n p hp
+  have hlen : p.length = n := hinj.1
+  have hget : ∀ u, u < n → ∃ a, p[u]? = some a ∧ a < n := by
+    intro u hu
+    have hu' : u < p.length := by omega
+    refine ⟨p[u], List.getElem?_eq_getElem hu', ?_⟩
+    have : p[u] ∈ List.range n := hp.mem_iff.mp (List.getElem_mem hu')
+    exact List.mem_range.mp this
+  unfold isIsoMap
+  simp only [Bool.and_eq_true, beq_iff_eq, List.all_eq_true, List.mem_range, decide_eq_true_eq, Bool.or_eq_true, ne_eq]
+  refine ⟨⟨⟨hlen, ?_⟩, ?_⟩, ?_⟩
+  · intro u hu
+    obtain ⟨a, ha, han⟩ := hget u hu
+    rw [getD_of_getElem? p u a n ha]; exact han
+  · intro u hu v hv
+    by_cases e : u = v
+    · left; exact e
+    · right
+      obtain ⟨a, ha, _⟩ := hget u hu
+      obtain ⟨b, hb, _⟩ := hget v hv
+      rw [getD_of_getElem? p u a n ha, getD_of_getElem? p v b n hb]
+      intro hab
+      exact e (hinj.2 u v hu hv (by rw [ha, hb, hab]))
+  · intro u hu v hv
+    obtain ⟨a, ha, _⟩ := hget u hu
+    obtain ⟨b, hb, _⟩ := hget v hv
+    rw [getD_of_getElem? p u a n ha, getD_of_getElem? p v b n hb]
+    unfold relabelAdj
+    rw [relabel_perm n A p hinj u v a b hu hv ha hb]
+    cases A u v <;> simp [Bool.toInt']
+
+/-- what the specification `isIsoMap` says -/
+theorem isIsoMap_spec (n : Nat) (A B : Adj) (m : List Nat) (h : isIsoMap n A B m = true) :
+    m.length = n ∧ (∀ u, u < n → m.getD u n < n) ∧ (∀ u v, u < n → v < n → m.getD u n = m.getD v n → u = v) ∧
+    ∀ u v, u < n → v < n → A u v = B (m.getD u n) (m.getD v n) := by
+  unfold isIsoMap at h
+  simp only [Bool.and_eq_true, beq_iff_eq, List.all_eq_true, List.mem_range, decide_eq_true_eq, Bool.or_eq_true, ne_eq] at h
+  obtain ⟨⟨⟨h1, h2⟩, h3⟩, h4⟩ := h
+  refine ⟨h1, h2, fun u v hu hv e => ?_, fun u v hu hv => h4 u hu v hv⟩
+  rcases h3 u hu v hv with h | h
+  · exact h
+  · exact absurd e h
+
+/-- equal graphs: the identity is reported (`{-1: 'self', 0: 0, 1: 1, …}`), and it is an isomorphism -/
+theorem identity_iso (n : Nat) (A : Adj) : isIsoMap n A A (List.range n) = true := by
+  unfold isIsoMap
+  simp only [Bool.and_eq_true, beq_iff_eq, List.all_eq_true, List.mem_range, decide_eq_true_eq, Bool.or_eq_true, ne_eq,
+    List.length_range, true_and]
+  have hg : ∀ u, u < n → (List.range n).getD u n = u := by
+    intro u hu; simp [List.getD, hu]
+  refine ⟨⟨fun u hu => by rw [hg u hu]; exact hu, fun u hu v hv => ?_⟩, fun u hu v hv => by rw [hg u hu, hg v hv]⟩
+  rw [hg u hu, hg v hv]
+  by_cases e : u = v
+  · left; exact e
+  · right; exact e
+
+
 end Graphiq
